@@ -16,7 +16,7 @@ from nengo_spa.algebras import HrrAlgebra, TvtbAlgebra, VtbAlgebra
 from nengo_spa.algebras.base import ElementSidedness
 
 PROPERTY = "C02"
-LEAN_MODULES = ["SpaModel.Props.C02"]
+LEAN_MODULES = ["SpaModel.Props.C02", "SpaModel.Props.C12S"]
 AUDIT = "SpaModel/Audit/C02.lean"
 DRIVER = "drivers/C02.lean"
 RULE = ("per algebra and dimensionality: all d*d basis pairs (d <= bound), structured vectors (zero, constant, "
